@@ -237,6 +237,8 @@ template <class Value> void HashedSearch<Value>::InitializeFromARPA(const char *
 
   PositiveProbWarn warn(config.positive_log_probability);
   Read1Grams(f, counts[0], vocab, unigram_.Raw(), warn);
+  // Entries hallucinated for pruned models may be based on <unk>: its default must be in place before they are made.
+  if (!vocab.SawUnk()) unigram_.Unknown().prob = config.unknown_missing_logprob;
   // As in ReadNGrams: the sign bit is on, indicating the unigram does not extend left, until a bigram says
   // otherwise.  Most already have this but there might be +0.0 (lmplz writes 0 for <s>).
   // <= because <unk> takes an extra slot when the file does not list it.
